@@ -1205,7 +1205,8 @@ func httpCacheKey(w *World, r *Report, ci *types.Named, id, text string) {
 			}
 		}
 		whole := reaches(urlCall("String", "Redacted"))
-		host := whole || reaches(field("Host")) || reaches(urlCall("Hostname"))
+		// (URL.Hostname() drops the port: endpoints on different ports of one host would share entries)
+		host := whole || reaches(field("Host"))
 		path := whole || reaches(urlCall("RequestURI", "EscapedPath")) || reaches(field("Path", "RawPath", "RequestURI"))
 		query := whole || reaches(urlCall("RequestURI", "Query")) || reaches(field("RawQuery", "RequestURI"))
 		method := reaches(field("Method"))
